@@ -773,7 +773,10 @@ def stream_cmp(rng, tier):
              "/..", "/a/..", "//", "/./", "./", ".", "a//b", "a/b", "%61", "a/%2E", "a/./b", "/.//a",
              "//a", "a/../b", "b", "%2e", "a/%2E%2E/..", "%2e%2e/..", "/%2E%2E/../b", "/b", "a/%2E/..",
              # a segment boundary against an escaped delimiter or control octet inside one segment
-             "a%00b", "a%00a", "a%2Fb", "a%2fb", "/x/a/", "/x/a%00", "a%01b", "a%FFb", "a/%00", "%00/a"]
+             "a%00b", "a%00a", "a%2Fb", "a%2fb", "/x/a/", "/x/a%00", "a%01b", "a%FFb", "a/%00", "%00/a",
+             # a `..` that survives normalisation against a segment that merely decodes to `..`
+             "%2E%2E/a", ".%2e/a", "%2e./a", "../%2E%2E", "%2E%2E", "../../x", "%2E%2E/%2E%2E/x", "../%2E%2E/x", "%2E%2E/../x",
+             "%2E", "./%2E", "%2E/a", "/%2E%2E", "/%2E%2E/a"]
     for a in paths:
         for b in paths:
             yield "cmp u path %s %s" % (hx(a), hx(b))
@@ -961,6 +964,20 @@ def stream_relto(rng, tier):
     for a, b in policy_pairs():
         for f in "ui":
             yield "relto %s %s %s" % (f, hx(a), hx(b))
+    # the same document, or the same directory, with every combination of absent / empty / non-empty
+    # query and fragment on either side (an empty query is not an absent one)
+    qs, fs = [None, "", "q", "x=1"], [None, "", "f"]
+    for stem, other in [("http://example.org/a/b", "http://example.org/a/b"), ("s://h/a/", "s://h/a/"), ("s://h", "s://h"),
+                        ("s:/a", "s:/a"), ("s:a/b", "s:a/b"), ("s://h/a/b", "s://h/a/c"), ("s://h/a/b", "s://h/a/./b")]:
+        for qa in qs:
+            for fa in fs:
+                for qb in qs:
+                    for fb in fs:
+                        a = stem + ("" if qa is None else "?" + qa) + ("" if fa is None else "#" + fa)
+                        b = other + ("" if qb is None else "?" + qb) + ("" if fb is None else "#" + fb)
+                        yield "relto u %s %s" % (hx(a), hx(b))
+                        if qa == "" or qb == "" or fa == "" or fb == "":
+                            yield "relto i %s %s" % (hx(a), hx(b))
     # the same-document shortcut compares texts: a base whose last segment *decodes* to the rest of
     # the target (escaped `/`, escaped letters, escaped dots) is another document
     for d in ["s://h/docs/", "s://h/", "s:/a/", "s:a/"]:
